@@ -498,3 +498,19 @@ package impl
 //@   ensures [subscribe-before-open] notafter(ChannelSubscriptions.Subscribe, Channels.Open) && all(ChannelSubscriptions.Subscribe, $1 == ret(Channels.CreateNew, 0))
 //@   ensures [request] all(Transport.OpenChannel, $2 == requestTo && $3 == ret(Channels.CreateNew, 0) && $6 == nil && $7 == ret(manager.newRequest, 0)) && never(DataTransferNetwork.SendMessage)
 //@   ensures [open-failure] calls(Transport.OpenChannel) == 1 && ret(Transport.OpenChannel, 0) != nil ==> err != nil && called(Channels.Error, _, ret(Channels.CreateNew, 0), _)
+
+// ---------------------------------------------------------------------------------------------
+// start-up / readiness (C13)
+
+//@ func (*impl.manager).Start {C13}
+//@   ensures [spawns-migration] spawned(Start$1) && calls(Start$1) == 1
+//@   ensures [wires] called(DataTransferNetwork.SetDelegate, _, _) && last(Transport.SetEventHandler, $1 == m)
+//@ func (*impl.manager).Start$1 {C13}
+//@   requires *m != nil
+//@   ensures [ready-once] seq(Channels.Start, PubSub.Publish) && all(PubSub.Publish, $0 == (**m).readySub && $1 == ret(Channels.Start, 0))
+//@ func (*impl.manager).OnReady {C13}
+//@   ensures [subscribes] seq(PubSub.Subscribe) && all(PubSub.Subscribe, $0 == m.readySub && $1 == ready)
+//@ func impl.readyDispatcher {C13}
+//@   requires [registered-callbacks-nonnil] dyntype_is(fn, datatransfer.ReadyFunc) ==> fn.(datatransfer.ReadyFunc) != nil
+//@   ensures [delivers-outcome] result == nil ==> seq(dyn.ReadyFunc) && all(dyn.ReadyFunc, $1 == evt)
+//@   ensures [at-most-once] calls(dyn.ReadyFunc) <= 1 && only(dyn.ReadyFunc)
